@@ -100,6 +100,9 @@ def run(ctx, replay_case):
                 nbits = 0
                 while j + 1 + nbits < len(rows_) and rows_[j + 1 + nbits][1] == "-":
                     nbits += 1
+                for b_ in rows_[j + 1: j + 1 + nbits]:
+                    if problem is None and r[1] != "-" and int(b_[2]) != int(r[2]) + 1:
+                        problem = f"indentation of a bit row: row {b_[3]} below {r[3]} (depth {r[2]}) is indented to depth {b_[2]}"
                 if r[1] != "-":
                     pr = L["prims"].get(r[1])
                     is_attr = pr is not None and (pr.get("flavour") == "bitfield" or r[1] == "TPM_RC")
